@@ -639,6 +639,19 @@ func (c *Compiler) applyUsesToNode(mod, nod, use parse.Node, parentStatus schema
 				}
 			}
 		}
+		// A property the target can have only once can be refined only
+		// once: written in place the node would carry it twice.
+		refined := make(map[parse.NodeType]bool)
+		for _, ch := range r.Children() {
+			t := ch.Type()
+			if t.IsExtensionNode() || applyToNode.GetCardinalityEnd(t) != '1' {
+				continue
+			}
+			if refined[t] {
+				c.error(ch, fmt.Errorf("only one '%s' statement is allowed in a refine", t))
+			}
+			refined[t] = true
+		}
 		for _, ch := range r.Children() {
 			c.applyChange(r, applyToNode, ch)
 		}
